@@ -89,9 +89,12 @@ class Path:
         self.inputs = {}     # declared inputs: name -> (kind, z3 const(s))
         self.uses_uninterpreted = False
         self.rng_calls = 0
+        self.skip_eq_literals = ()   # see ContractDef.skip_eq_literals
+        self.excluded = []
         self.exps = []
         self.logs = []
         self.sqrts = []
+        self.atan2s = []
         self.opaques = {}     # name -> list of (args tuple, result const)
         self.rng_limit = None
 
@@ -142,6 +145,16 @@ class Path:
             return True
         if z3.is_false(cond):
             return False
+        if self.skip_eq_literals and z3.is_eq(cond) and cond.num_args() == 2:
+            for a, b in ((cond.arg(0), cond.arg(1)), (cond.arg(1), cond.arg(0))):
+                v = _numeral(b)
+                if v is not None and v in self.skip_eq_literals and _numeral(a) is None:
+                    # the contract excludes "some value equals exactly this literal" (an outcome-irrelevant
+                    # comparison in the code under proof, covered by a separate contract): assume inequality
+                    self.pc.append(z3.Not(cond))
+                    if len(self.excluded) < 50:
+                        self.excluded.append(str(cond)[:120])
+                    return False
         i = len(self.taken)
         if i >= self.MAX_DECISIONS:
             if self.unsupported is None:
@@ -304,6 +317,7 @@ class Path:
             self._axd((t, c, s), z3.Implies(z3.And(x == 0, y > 0), t == PI / 2))
             self._axd((t, c, s), z3.Implies(z3.And(x == 0, y < 0), t == -PI / 2))
             self.defs[str(t)] = ('atan2', y, x)
+            self.atan2s.append((y, x, t))
             return t
         return self.cached('atan2', [y, x], make)
 
@@ -475,6 +489,13 @@ class Path:
                 for (b, q) in calls[i + 1:]:
                     if len(a) == len(b) and not all(z3.eq(u, v) for u, v in zip(a, b)):
                         out.append(z3.Implies(z3.And(*[u == v for u, v in zip(a, b)]), r == q))
+        if len(self.atan2s) <= 30:
+            for i, (y1, x1, t1) in enumerate(self.atan2s):
+                for (y2, x2, t2) in self.atan2s[i + 1:]:
+                    out.append(z3.Implies(z3.And(y1 == y2, x1 == x2), t1 == t2))       # congruence of arctan2
+                    # arctan2 is invariant under positive rescaling of (y, x)
+                    out.append(z3.Implies(z3.And(y1 * x2 == y2 * x1, y1 * y2 >= 0, x1 * x2 >= 0,
+                                                 z3.Or(y1 != 0, x1 != 0), z3.Or(y2 != 0, x2 != 0)), t1 == t2))
         if len(self.sqrts) <= 40:
             for i, (a, r) in enumerate(self.sqrts):
                 for (b, q) in self.sqrts[i + 1:]:
